@@ -19,7 +19,11 @@ REQUIRED = {t: "oracle:C04.frame oracle:C04.read-back c04:neighbour-blocks-compa
 
 
 def plan(tier, seed):
-    return plan_container(tier, seed, ["C04"])
+    sh = plan_container(tier, seed, ["C04"])
+    if tier == "thorough":   # dates "to the second" under other time zones (DST rules differ)
+        for i, tz in enumerate(["Europe/Rome", "America/Sao_Paulo", "Asia/Kolkata", "Pacific/Chatham"]):
+            sh.append({"kind": "random", "shard": 200 + i, "budget_s": 60, "oracles": ["C04"], "env": {"TZ": tz}})
+    return sh
 
 
 def run_shard(desc, rec):
